@@ -4,4 +4,9 @@ go 1.26
 
 require github.com/nspcc-dev/dbft v0.0.0
 
+require (
+	go.uber.org/multierr v1.10.0 // indirect
+	go.uber.org/zap v1.27.0 // indirect
+)
+
 replace github.com/nspcc-dev/dbft => /repo
